@@ -24,7 +24,9 @@
 (*    z = 0, division by the zero polynomial, empty coefficient list for   *)
 (*    an evaluation) is not judged, whatever the code did;                 *)
 (*  - RecursionError on a list of more than 41 coefficients (outside the   *)
-(*    quantifier "degree 0..40") is not judged;                            *)
+(*    quantifier "degree 0..40") is not judged for the schemes whose       *)
+(*    recursion depth is linear in the degree (it IS judged for the        *)
+(*    default and balanced schemes, whose depth is logarithmic);           *)
 (*  - taylorat's undocumented `size`: every returned coefficient must be   *)
 (*    exact and at least min(size, deg + 1) of them must be returned.      *)
 (*                                                                         *)
@@ -45,7 +47,8 @@ EvalFails(e) ==
       dom == /\ Len(P) >= 1
              /\ (e.form = "laurent" /\ e.m < 0) => ~QIsZero(x)
   IN  IF ~dom THEN {}
-      ELSE IF Raised(e) THEN (IF e.raised = "RecursionError" /\ Len(P) > 41 THEN {} ELSE {"raised"})
+      ELSE IF Raised(e) THEN (IF e.raised = "RecursionError" /\ Len(P) > 41 /\ e.scheme \notin {"default", "balanced"}
+                              THEN {} ELSE {"raised"})
       ELSE LET want == IF e.form = "plain" THEN PEval(P, x)
                        ELSE IF e.form = "ratio" THEN PEval(PFromRatio(P), x)
                        ELSE LEval(P, e.m, x)
